@@ -32,8 +32,8 @@ ASSUMPTIONS = [
     "the cleaning filter is the element-wise maximum over the extra baselines of the reduced difference to the first baseline, floored at 0",
 ]
 FLOORS = {
-    "quick": {"baseline_list_untouched": 350, "second_analysis_from_same_baselines": 100, "trace_automaton": 350, "result_is_composition": 220, "baseline_maps_to_zero": 250, "probe_unchanged": 350, "diff_option_identities": 60},
-    "thorough": {"baseline_list_untouched": 3500, "second_analysis_from_same_baselines": 1000, "trace_automaton": 3500, "result_is_composition": 2200, "baseline_maps_to_zero": 2500, "probe_unchanged": 3500, "diff_option_identities": 600},
+    "quick": {"probe_object_reused_with_new_content": 60, "baseline_list_untouched": 350, "second_analysis_from_same_baselines": 100, "trace_automaton": 350, "result_is_composition": 220, "baseline_maps_to_zero": 250, "probe_unchanged": 350, "diff_option_identities": 60},
+    "thorough": {"probe_object_reused_with_new_content": 600, "baseline_list_untouched": 3500, "second_analysis_from_same_baselines": 1000, "trace_automaton": 3500, "result_is_composition": 2200, "baseline_maps_to_zero": 2500, "probe_unchanged": 3500, "diff_option_identities": 600},
 }
 DIFFS = ["absolute", "positive", "negative", "plain"]
 
@@ -222,6 +222,19 @@ def run_shard(spec, R):
             okb, outb = R.guarded("call", lambda: ca(image(base_arrs[0].copy())), key=lambda e, w: key)
             if okb:
                 R.check(bool(np.all(outb.img == 0)), "baseline_maps_to_zero", lambda: {**cfg, "max_abs": float(np.max(np.abs(outb.img)))}, key=key, group=grp)
+        # the same probe object, overwritten in place with the baseline's content, then analysed again (a probe is
+        # identified by what it holds when it is analysed)
+        if not offset_bal and it["id"] % 2 == 1 and probe.img.shape == base_arrs[0].shape:
+            if probe.img.dtype == base_arrs[0].dtype:
+                del trace[:]
+                probe.img[...] = probe_arr
+                R.guarded("call", lambda: ca(probe), key=lambda e, w: key)  # analysed with its original content ...
+                probe.img[...] = base_arrs[0]  # ... then overwritten in place and analysed again
+                okr, outr = R.guarded("call", lambda: ca(probe), key=lambda e, w: key)
+                if okr:
+                    R.check(bool(np.all(outr.img == 0)), "baseline_maps_to_zero", lambda: {**cfg, "what": "probe object overwritten in place with the baseline", "max_abs": float(np.max(np.abs(outr.img)))},
+                            key=key, group=grp)
+                    R.count("probe_object_reused_with_new_content")
         # ---------------------------------- diff option identities (no stages)
         if not any((it["red"], it["bal"], it["res"], it["mod"])):
             outs = {}
